@@ -293,7 +293,7 @@ Theorem C08_weiQ_reduce : forall n k G M, (0 < k)%Z -> scaled_to n k G M ->
   (betweenness_weiQ n G = betweenness_wei n M /\ edge_betweenness_weiQ n G = edge_betweenness_wei n M) /\
   (forall s t, spathsQ n G s t = spaths n M s t) /\
   (forall v, BC_specQ n G v == BC_spec n M v) /\ (forall x y, EBC_specQ n G x y == EBC_spec n M x y).
-Proof. intros n k G M Hk H. exact (conj (weiQ_reduce n k G M Hk H) (specQ_reduce n k G M Hk H)). Qed.
+Proof. exact weiQ_reduce_all. Qed.
 Theorem C08_weiQ_of_fraction : forall n k M,
   betweenness_weiQ n (fracG k M) = betweenness_wei n M /\ edge_betweenness_weiQ n (fracG k M) = edge_betweenness_wei n M.
 Proof. exact weiQ_of_fraction. Qed.
@@ -305,7 +305,7 @@ Definition bc_correct_weiQ : Prop := forall n G, nonneg_lenQ n G ->
     (forall v, (v < n)%nat -> BC v == BC_specQ n G v) /\
     (forall x y, (x < n)%nat -> (y < n)%nat -> EBC x y == EBC_specQ n G x y)).
 Theorem C08_bc_weiQ_correct : bc_correct_weiQ.
-Proof. intros n G H. exact (conj (bc_weiQ_correct n G H) (ebc_weiQ_correct n G H)). Qed.
+Proof. exact bc_weiQ_correct_all. Qed.
 
 (* scaling all lengths by any positive rational c *)
 Theorem C08_weiQ_scale_invariant : forall n c G, 0 < c -> nonneg_lenQ n G ->
@@ -315,10 +315,7 @@ Theorem C08_weiQ_scale_invariant : forall n c G, 0 < c -> nonneg_lenQ n G ->
      forall v, (v < n)%nat -> BC' v == BC v) /\
   (exists E' B' E B, edge_betweenness_weiQ n (scaleQ c G) = Some (E', B') /\ edge_betweenness_weiQ n G = Some (E, B) /\
      (forall v, (v < n)%nat -> B' v == B v) /\ (forall x y, (x < n)%nat -> (y < n)%nat -> E' x y == E x y)).
-Proof.
-  intros n c G Hc H. destruct (weiQ_scale_invariant n c G Hc H) as [A B].
-  exact (conj (specQ_scale_invariant n c G Hc H) (conj A B)).
-Qed.
+Proof. exact weiQ_scale_all. Qed.
 
 (* ------------------------------------------------------------------------------------------ *)
 (* non-vacuity: a diamond with a tie (two equal-length routes 0->1->3, 0->2->3) plus an unreachable node *)
